@@ -1,6 +1,6 @@
 (* Model/Merge.v — MetadataGenerator.merge_field_sets (generator.py:126-175, with the D3 repair). *)
 From Coq Require Import List Bool Arith NArith.
-From J2M.Model Require Import Base Union.
+From J2M.Model Require Import Base Union PyStr.
 Import ListNotations.
 
 Section Merge.
@@ -8,17 +8,24 @@ Section Merge.
      Before models exist there are no pointers and any function will do. *)
   Variable ptr_eq : N -> N -> bool.
 
-  (* Python == on metadata.  ComplexType.__eq__ sorts both member lists by str(item) and compares
-     element-wise; modelled as: same length, every member of the left side equal to some member of the right
-     side AND every member of the right side equal to some member of the left side (a one-sided matching is
-     unsound: [A; A'] with A == A' would equal [A; int]).  Exact unless two different members share a sort
-     key — see DESIGN 3.2.  dict == dict ignores order. *)
+  (* Python == on metadata.  ComplexType.__eq__ is `self.sorted == other.sorted`: both member lists are sorted (stable) by
+     str(item) — str(sorted(keys)) for a raw dict — and compared element-wise (Model/PyStr.v).  It is therefore ORDER
+     SENSITIVE on members with equal sort keys: two raw dicts with the same key set keep their relative order, so
+     Union[{a: bool}, {a: int}] != Union[{a: int}, {a: bool}].  The element of xs that lands at position p of sorted(xs) is
+     compared with the element at position p of sorted(ys); written as an iteration over xs itself (with the position
+     computed from the keys) so that the recursion stays structural.  dict == dict ignores order.
+     Validated against the implementation on random pairs of raw types by tools/validate_pyeq.py (X-pyeq). *)
   Fixpoint py_eq (a b : ty) {struct a} : bool :=
     match a, b with
     | TUnion xs, TUnion ys =>
+        let kx := map sort_key xs in
+        let sys := ssort ys in
         Nat.eqb (length xs) (length ys) &&
-        (fix all l := match l with [] => true | x :: r => existsb (py_eq x) ys && all r end) xs &&
-        forallb (fun y => (fix any l := match l with [] => false | x :: r => py_eq x y || any r end) xs) ys
+        (fix go (pre : list str) (l : list ty) {struct l} : bool :=
+           match l with
+           | [] => true
+           | x :: r => py_eq x (nth (sorted_pos kx pre (sort_key x)) sys TNull) && go (pre ++ [sort_key x]) r
+           end) [] xs
     | TObj xs, TObj ys =>
         Nat.eqb (length xs) (length ys) &&
         (fix all l := match l with
